@@ -5,10 +5,10 @@ import (
 	"net"
 	"time"
 
+	dtlsserver "github.com/plgd-dev/go-coap/v3/dtls/server"
 	"github.com/plgd-dev/go-coap/v3/message"
 	"github.com/plgd-dev/go-coap/v3/message/pool"
 	coapNet "github.com/plgd-dev/go-coap/v3/net"
-	dtlsserver "github.com/plgd-dev/go-coap/v3/dtls/server"
 	tcpclient "github.com/plgd-dev/go-coap/v3/tcp/client"
 	tcpserver "github.com/plgd-dev/go-coap/v3/tcp/server"
 	udpclient "github.com/plgd-dev/go-coap/v3/udp/client"
